@@ -469,3 +469,13 @@ func init() {
 	mutant("client-goaway-leaves-disclaimed-waiting", "client-goaway-drain", "conn.go", "				c.failAbove(ga.stream)\n", "")
 	mutant("client-fails-promised-streams-too", "retryable-pre-wire", "conn.go", "		if id > last {\n			ids = append(ids, id)\n		}", "		if id >= last {\n			ids = append(ids, id)\n		}")
 }
+
+func init() {
+	mutant("header-list-budget-per-block", "validator-state-monotone", "serverConn.go", "	if fr.Type() != FrameContinuation {\n		strm.blockFields = 0\n	}", "	if fr.Type() != FrameContinuation {\n		strm.blockFields = 0\n		strm.headerListSize = 0\n	}")
+}
+
+func init() {
+	mutant("client-table-record-starts-at-zero", "settings-applied", "conn.go", "	nc.encTableSize = defaultHeaderTableSize\n	nc.encTableSizeSeen = defaultHeaderTableSize\n", "")
+	mutant("client-handshake-marker-without-encoder", "settings-applied", "conn.go", "				c.enc.SetMaxTableSize(st.HeaderTableSize())\n				c.encTableSize = st.HeaderTableSize()\n				c.encTableSizeSeen = st.HeaderTableSize()", "				c.encTableSize = st.HeaderTableSize()\n				c.encTableSizeSeen = st.HeaderTableSize()")
+	mutant("cutpadding-pad-equals-length", "padding-shape", "http2utils/utils.go", "	if len(payload) < length-pad-1 || length-pad < 1 {", "	if len(payload) < length-pad-1 || pad > length {")
+}
